@@ -1,4 +1,5 @@
 import ClusterVerif.Spec.C09
+import ClusterVerif.Spec.C09Chan
 import ClusterVerif.Gen.C09
 import Driver.Parse
 /-!
@@ -20,6 +21,10 @@ history / monitor suites:
     orc      accrual oracle: T always "failed", F never, R read off the implementation's answer
 watch suite (the real Checker.Watch ticks every <iv> ms from the start of the case; no q/t/k ops):
   C09 w cap=<c> max=<a> orc=<T|F> ps=<peerset> iv=<ms> <op>... => <A<name>.<peer>.<id|x>/<tick> | G<name>.<peer>/<tick>>... | -
+chan suite (round 8; a consumer that does not receive after every check, one metric name):
+  C09 ch cap=<c> max=<a> <op>... => <obs>...
+    op   e<p> | f<p> arrival for peer p (expired / fresh)   k<peers> CheckPeers, nothing received   d<n> receive up to n alerts
+    obs  k=<0|1 ErrAlertChannelFull>;<peer:stamp held by the store,..|->   d=<peer:stamp,..|->   (last token: the final drain)
 cadence suite:
   C09 cad <inf|ping> <ttl ms> <error pattern> => pubs=<n> late=<l>
 -/
@@ -344,12 +349,66 @@ def answerCadence (ws : List String) : String :=
     | _, _ => "bad-case"
   | _ => "bad-case"
 
+
+/-! suite `chan` -/
+def parseStampPair (s : String) : Option (Nat × Nat) :=
+  match s.splitOn ":" with
+  | [a, b] => do
+    let a ← a.toNat?
+    if b == "x" then pure (a, 0) else pure (a, ← b.toNat?)
+  | _ => none
+
+def parseChOp (s : String) : Option Chan.Op :=
+  let rest := (s.drop 1).toString
+  if s.startsWith "e" then rest.toNat?.map (Chan.Op.add · true)
+  else if s.startsWith "f" then rest.toNat?.map (Chan.Op.add · false)
+  else if s.startsWith "d" then rest.toNat?.map Chan.Op.drain
+  else if s.startsWith "k" then (nats rest).map Chan.Op.check
+  else none
+
+def parseChObs (s : String) : Option Chan.Obs :=
+  if s.startsWith "d=" then (listOf parseStampPair ((s.drop 2).toString)).map Chan.Obs.drained
+  else if s.startsWith "k=" then
+    match ((s.drop 2).toString).splitOn ";" with
+    | [e, l] => do pure (Chan.Obs.check (← bool01 e) (← listOf parseStampPair l))
+    | _ => none
+  else none
+
+def showChObs : Chan.Obs → String
+  | .check e l => "k=" ++ (if e then "1" else "0") ++ ";" ++ showPairs ":" l
+  | .drained l => "d=" ++ showPairs ":" l
+
+def answerChan (ws : List String) : String :=
+  match splitArrow ws with
+  | some (c :: m :: opsW, obsW) =>
+    match (kv "cap" c).bind String.toNat?, (kv "max" m).bind String.toNat?,
+          opsW.mapM parseChOp, obsW.mapM parseChObs with
+    | some cap, some maxA, some ops, some obs =>
+      if cap == 0 then "bad-case cap" else
+      if (Chan.peersOf ops).any (fun p => Gen.accrualMetricsNum ≤ Chan.arrivals p ops) then "bad-case accrual-regime" else
+      let model := Chan.run (!Gen.alertCountsBeforeSend) cap Gen.maxAlertThreshold ops
+      let full := model.any (fun o => match o with | .check true _ => true | _ => false)
+      let lost := !(Chan.holds ops model)
+      let arm := "arm=chan-" ++ (if lost then "lost" else if full then "full" else "room") ++
+        (if cap == Gen.alertChannelCap then " arm=chan-shipped-cap" else "")
+      let failed := Chan.failing ops obs
+      -- sig=as-model: the implementation did exactly what the model of today's (regenerated) order does
+      if !failed.isEmpty then "propfail " ++ ",".intercalate failed ++ " " ++ arm ++
+        (if model == obs && maxA == Gen.maxAlertThreshold then " sig=as-model" else " sig=other")
+      else if !Gen.alertOrderKnown then "diff " ++ arm ++ " model=alert-order-not-recognised"
+      else if maxA != Gen.maxAlertThreshold then "diff " ++ arm ++ " model=max-alert-threshold-" ++ toString Gen.maxAlertThreshold
+      else if model != obs then "diff " ++ arm ++ " model=" ++ " ".intercalate (model.map showChObs)
+      else "ok " ++ arm ++ (if ops.any (fun o => match o with | .check _ => true | _ => false) then "" else " trivial")
+    | _, _, _, _ => "bad-case"
+  | _ => "bad-case"
+
 /-- answer for one case line (tokens after the leading "C09") -/
 def answer (ws : List String) : String :=
   match ws with
   | "h" :: rest => answerHistory rest
   | "w" :: rest => answerWatch rest
   | "cad" :: rest => answerCadence rest
+  | "ch" :: rest => answerChan rest
   | _ => "bad-case unknown-kind"
 
 end CV.C09
